@@ -64,6 +64,9 @@ func (v DenseInt8Vector) AT(i int) Int8 {
   return Int8{&v[i]}
 }
 func (v DenseInt8Vector) APPEND(w DenseInt8Vector) DenseInt8Vector {
+  // v might be a slice of a longer vector, do not
+  // overwrite the elements behind it
+  v = v[:len(v):len(v)]
   return append(v, w...)
 }
 func (v DenseInt8Vector) ToDenseInt8Matrix(n, m int) *DenseInt8Matrix {
@@ -114,12 +117,18 @@ func (v DenseInt8Vector) Swap(i, j int) {
   v[i], v[j] = v[j], v[i]
 }
 func (v DenseInt8Vector) AppendScalar(scalars ...Scalar) Vector {
+  // v might be a slice of a longer vector, do not
+  // overwrite the elements behind it
+  v = v[:len(v):len(v)]
   for _, scalar := range scalars {
     v = append(v, scalar.GetInt8())
   }
   return v
 }
 func (v DenseInt8Vector) AppendVector(w Vector) Vector {
+  // v might be a slice of a longer vector, do not
+  // overwrite the elements behind it
+  v = v[:len(v):len(v)]
   for i := 0; i < w.Dim(); i++ {
     v = append(v, w.ConstAt(i).GetInt8())
   }
